@@ -36,3 +36,63 @@ def Table.rawDeterministic (g : Grammar) (t : Table) : Bool :=
   t.states.all fun st => (List.range g.nterms).all fun a => st.rawCandidates g a ≤ 1
 
 end Rustemo
+
+namespace Rustemo
+
+/-! ## The structural certificate (no lookaheads involved) -/
+
+def Table.forStates (t : Table) (f : Nat → State → Bool) : Bool :=
+  (List.range t.states.size).all fun i =>
+    match t.states[i]? with
+    | some st => f i st
+    | none => true
+
+def State.forCells (st : State) (f : Nat → Action → Bool) : Bool :=
+  (List.range st.actions.size).all fun a => (st.actions.getD a []).all (f a)
+
+def State.forGotos (st : State) (f : Nat → Nat → Bool) : Bool :=
+  (List.range st.gotos.size).all fun j =>
+    match st.gotos.getD j none with
+    | some s' => f j s'
+    | none => true
+
+def State.hasItemB (st : State) (p d : Nat) : Bool :=
+  st.items.any fun it => it.prod == p && it.dot == d
+
+/-- every item of the target state `s'` with the dot after a symbol comes from an item of `st`
+    with the dot before `X`, and that symbol is `X` -/
+def Table.targetOk (g : Grammar) (t : Table) (st : State) (X s' : Nat) : Bool :=
+  match t.states[s']? with
+  | none => true
+  | some st' =>
+    st'.items.all fun it =>
+      it.dot == 0 || (g.rhsAt it.prod (it.dot - 1) == some X && st.hasItemB it.prod (it.dot - 1))
+
+def Cert.structural (g : Grammar) (t : Table) (start aug : Nat) : Bool :=
+  -- item_prod
+  (t.forStates fun _ st => st.items.all fun it =>
+      match g.prods[it.prod]? with
+      | some pr => it.dot ≤ pr.rhs.length
+      | none => false) &&
+  -- start_items, aug_start_only
+  (t.forStates fun i st => st.items.all fun it =>
+      (i != start || it.dot == 0) && (i == start || !(it.prod == aug && it.dot == 0))) &&
+  -- no_into_start, shift_term, target_items (terminals), reduce_item, accept_item
+  (t.forStates fun _ st =>
+      decide (st.actions.size ≤ g.nterms) &&
+      st.forCells fun a act =>
+        match act with
+        | .shift s' => s' != start && t.targetOk g st a s'
+        | .reduce p len =>
+          st.hasItemB p len &&
+          (match g.prods[p]? with
+           | some pr => pr.rhs.length == len
+           | none => false)
+        | .accept =>
+          (match g.prods[aug]? with
+           | some pr => pr.rhs == [g.startIdx]
+           | none => false) && st.hasItemB aug 1) &&
+  -- gotos: no_into_start, target_items (nonterminals)
+  (t.forStates fun _ st => st.forGotos fun j s' => s' != start && t.targetOk g st (g.nterms + j) s')
+
+end Rustemo
